@@ -431,7 +431,17 @@ impl ChangeGraphB {
     pub uninterp spec fn spec_has(&self, h: ChangeHash) -> bool;
     #[verifier::external_body]
     pub fn has_change(&self, h: &ChangeHash) -> (r: bool) ensures r == self.spec_has(*h) { unimplemented!() }
+    /// read-only accessor a variant of the admission loop may consult (no contract beyond totality)
+    #[verifier::external_body]
+    pub fn seq_for_actor(&self, actor: usize) -> (r: u64) ensures r < u32::MAX { unimplemented!() }
 }
+/// std: `Option::map_or` (no vstd specification)
+pub assume_specification<T, U, F: FnOnce(T) -> U>[ Option::<T>::map_or ](o: Option<T>, default: U, f: F) -> (r: U)
+    requires o matches Some(x) ==> f.requires((x,)),
+    ensures o is None ==> r == default, o matches Some(x) ==> f.ensures((x,), r);
+/// the op set as far as the admission loop may consult it (read-only, no contract beyond totality)
+#[verifier::external_body] pub struct OpSetB { _p: () }
+impl OpSetB { #[verifier::external_body] pub fn lookup_actor(&self, a: &ActorId) -> (r: Option<usize>) { unimplemented!() } }
 impl ChangeQueue {
     /// ASSUMED (closures over HashMap/VecDeque): dropping a queued branch keeps the index invariant
     #[verifier::external_body]
@@ -468,7 +478,7 @@ pub fn vf_filter_new<I: IntoIterator<Item = Change>>(changes: I, g: &ChangeGraph
             ==> exists|k: int| 0 <= k < r.len() && r[k] == change_items(changes)[j],
 { unimplemented!() }
 
-pub struct AutomergeBatch { pub change_graph: ChangeGraphB, pub queue: ChangeQueue, pub seqs: AutomergeSeq }
+pub struct AutomergeBatch { pub change_graph: ChangeGraphB, pub queue: ChangeQueue, pub seqs: AutomergeSeq, pub ops: OpSetB }
 impl AutomergeBatch {
     /// contract of Automerge::has_actor_seq, proved above on the real body
     #[verifier::external_body]
